@@ -145,6 +145,18 @@ Theorem C06_rise_piece_is_planted : forall (sigma Y0 Y1 : Q) (k : Z) (v : Q),
 Proof. exact rise_piece_is_planted. Qed.
 Print Assumptions C06_rise_piece_is_planted.
 
+(** ... and on the recession side: a piece starting at underlying time c, on a
+    pair of consecutive samples between which the inverse curve (level -> time)
+    is affine (the planted recession curve is linear on every sampling step):
+    the reported crossing is the underlying time of the level minus c. *)
+Theorem C06_recession_pair_is_planted : forall (c x0 Y0 x1 Y1 TY0 TY1 Tk : Q) (k : Z) (v : Q),
+  TY0 == c + x0 -> TY1 == c + x1 ->
+  Tk == TY0 + (inject_Z k - Y0) * (TY1 - TY0) / (Y1 - Y0) ->
+  In (k, v) (seg_out (x0, Y0) (x1, Y1)) ->
+  v == Tk - c.
+Proof. exact recession_pair_is_planted. Qed.
+Print Assumptions C06_recession_pair_is_planted.
+
 Example C06_example_rise_piece :
   seg_out (0, 3 # 2) ((1 # 4) * ((9 # 2) - (3 # 2)), 9 # 2)
   = [(2%Z, cross 0 (3 # 2) ((1 # 4) * ((9 # 2) - (3 # 2))) (9 # 2) 2);
